@@ -10,7 +10,7 @@ unexport GOSUMDB
 setup: go2coq gen coq harness
 
 go2coq:
-	@if [ -f tools/go2coq/main.go ]; then cd tools/go2coq && go build -o go2coq . ; fi
+	@if [ -f tools/go2coq/main.go ]; then (cd tools/go2coq && go build -o go2coq .) || echo 'WARNING: go2coq did not build'; fi
 
 # regenerate every translated Gallina file from /repo's current source
 gen: go2coq
